@@ -537,11 +537,17 @@ class QueryScheduler:
 
         if ready_types:
             self.async_send_ready_queries(False, now_millis, ready_types)
+            next_time_millis = now_millis + self._min_time_between_queries_millis
+            self._earliest_next_run = millis_to_seconds(next_time_millis)
+        else:
+            # Nothing was sent (the wake-up was for a query that has been cancelled
+            # in the meantime): the minimum time between queries still counts from
+            # the last query that was sent, not from this wake-up
+            next_time_millis = self._earliest_next_run * 1000
 
-        next_time_millis = now_millis + self._min_time_between_queries_millis
-        self._earliest_next_run = millis_to_seconds(next_time_millis)
-
-        if next_scheduled is not None and next_scheduled.when_millis > next_time_millis:
+        if next_scheduled is None:
+            next_when_millis = now_millis + self._min_time_between_queries_millis
+        elif next_scheduled.when_millis > next_time_millis:
             next_when_millis = next_scheduled.when_millis
         else:
             next_when_millis = next_time_millis
